@@ -7,14 +7,14 @@ import LexVerif.Proof.WriteFloatDragon
 
 All statements are about `Model.WriteFloat.writeFloat` (buffer-faithful model of `WriteFloat::write_float`, both decimal
 back-ends) and the integer sizes of `Gen.Sizes`.
-* `float_bound`: with a buffer of at least `buffer_size_const` bytes, valid format/options, a decimal digit list as the
+* `float_bound_before_fix`: with a buffer of at least `buffer_size_const` bytes, valid format/options, a decimal digit list as the
   digit generators produce and `SafeOpts`, the call succeeds, returns at most `buffer_size_const` bytes and never writes
   at or beyond index `buffer_size_const`.
-* `float_bound_full` (`def … : Prop`): the same without `SafeOpts` — **false**; `bound_too_small_*` are decided
+* `float_bound_before_fix_full` (`def … : Prop`): the same without `SafeOpts` — **false**; `bound_too_small_*` are decided
   witnesses (they replay as panics on the implementation: findings).
-* `short_buffer_safe`: with ANY buffer the model yields `panic` or a result inside the buffer, never `fault`.
-* `int_bound`: `FORMATTED_SIZE(_DECIMAL)` of `Gen.Sizes` holds every numeral of every integer type and radix, sign
-  included — for signed types; for unsigned types the optional `+` does not fit (`int_plus_sign_exception`).
+* `short_buffer_safe_before_fix`: with ANY buffer the model yields `panic` or a result inside the buffer, never `fault`.
+* `int_bound_before_fix`: `FORMATTED_SIZE(_DECIMAL)` of `Gen.Sizes` holds every numeral of every integer type and radix, sign
+  included — for signed types; for unsigned types the optional `+` does not fit (`int_plus_sign_exception_before_fix`).
 -/
 namespace LexVerif.Props.C09
 open LexVerif.Spec LexVerif.Model LexVerif.Model.WriteFloat LexVerif.Proof.WriteFloatBuf LexVerif.Proof.WriteFloatBound
@@ -92,28 +92,28 @@ theorem float_bound_of (bound : Nat) (feats : Features) (f : Fmt) (fmt : Format)
     · dsimp only; split <;> omega
     · simp only [List.length_append, hbl]; omega
 
-/-- **C09 `float_bound`** (decimal path, both back-ends), current `buffer_size_const`: needs `SafeOpts`. -/
-theorem float_bound (feats : Features) (f : Fmt) (fmt : Format) (o : WOpts) (bits : Nat) (ds : List Nat) (sci : Int)
+/-- **C09 `float_bound_before_fix`** (decimal path, both back-ends), the `buffer_size_const` formula BEFORE /repo commit fb7040b (`bufferSizeConstOld`): needed `SafeOpts`. -/
+theorem float_bound_before_fix (feats : Features) (f : Fmt) (fmt : Format) (o : WOpts) (bits : Nat) (ds : List Nat) (sci : Int)
     (buf : List Nat) (hc : DecimalCall feats f fmt o bits ds sci) (hsafe : SafeOpts feats f fmt o)
-    (hbuf : bufferSizeConst feats f fmt o ≤ buf.length) :
-    ∃ w, writeFloat feats f fmt o false bits (ds, sci) buf = .done w ∧
-      w.len ≤ bufferSizeConst feats f fmt o ∧ w.hi ≤ bufferSizeConst feats f fmt o ∧ w.bytes.length = buf.length :=
+    (hbuf : bufferSizeConstOld feats f fmt o ≤ buf.length) :
+    ∃ w, writeFloatOld feats f fmt o false bits (ds, sci) buf = .done w ∧
+      w.len ≤ bufferSizeConstOld feats f fmt o ∧ w.hi ≤ bufferSizeConstOld feats f fmt o ∧ w.bytes.length = buf.length :=
   float_bound_of _ feats f fmt o bits ds sci buf hc (bufferSizeConst_ge feats f fmt o hc.radix10).2
     (need_le_bound feats f fmt o ds sci _ hc.radix10 hc.expRadix10 hc.opts hc.digits1 hc.digitsN hc.range
       (signBytes_length_le feats f fmt bits) hsafe) hbuf
 
-/-- **C09 `float_bound_fixed`**: with the repaired `buffer_size_const` (`fixes/C09-buffer-size-const.diff`) the bound
+/-- **C09 `float_bound`**: with the `buffer_size_const` of the current tree (repaired by /repo commit fb7040b) the bound
 holds for ALL valid options and valid decimal formats — no `SafeOpts` — on both back-ends: the call returns, the result
-and every index written lie below `bufferSizeConstFixed`. -/
-theorem float_bound_fixed (feats : Features) (f : Fmt) (fmt : Format) (o : WOpts) (bits : Nat) (ds : List Nat) (sci : Int)
+and every index written lie below `bufferSizeConst`. -/
+theorem float_bound (feats : Features) (f : Fmt) (fmt : Format) (o : WOpts) (bits : Nat) (ds : List Nat) (sci : Int)
     (buf : List Nat) (hc : DecimalCall feats f fmt o bits ds sci)
-    (hbuf : bufferSizeConstFixed feats f fmt o ≤ buf.length) :
-    ∃ w, writeFloatFixed feats f fmt o false bits (ds, sci) buf = .done w ∧
-      w.len ≤ bufferSizeConstFixed feats f fmt o ∧ w.hi ≤ bufferSizeConstFixed feats f fmt o ∧
+    (hbuf : bufferSizeConst feats f fmt o ≤ buf.length) :
+    ∃ w, writeFloat feats f fmt o false bits (ds, sci) buf = .done w ∧
+      w.len ≤ bufferSizeConst feats f fmt o ∧ w.hi ≤ bufferSizeConst feats f fmt o ∧
       w.bytes.length = buf.length := by
   have hneed := need_le_fixed feats f fmt o ds sci _ hc.radix10 hc.expRadix10 hc.opts hc.digits1 hc.digitsN hc.range
     (signBytes_length_le feats f fmt bits)
-  have h64 : 64 ≤ bufferSizeConstFixed feats f fmt o := by
+  have h64 : 64 ≤ bufferSizeConst feats f fmt o := by
     have := (bufferSizeConst_ge feats f fmt o hc.radix10).2
     have := bufferSizeConst_le_fixed feats f fmt o hc.opts
     omega
@@ -122,29 +122,29 @@ theorem float_bound_fixed (feats : Features) (f : Fmt) (fmt : Format) (o : WOpts
 /-- the repair only ever enlarges the bound: no existing caller's buffer becomes too small for `check_buffer` … it can
 only become too small if it was sized by the OLD formula and is now compared with the new one, which is why the fix must
 land in `buffer_size_const` itself (callers obtain the size from it). -/
-theorem fixed_ge_current (feats : Features) (f : Fmt) (fmt : Format) (o : WOpts) (hno : NumOpts o) :
-    bufferSizeConst feats f fmt o ≤ bufferSizeConstFixed feats f fmt o :=
+theorem bound_ge_before_fix (feats : Features) (f : Fmt) (fmt : Format) (o : WOpts) (hno : NumOpts o) :
+    bufferSizeConstOld feats f fmt o ≤ bufferSizeConst feats f fmt o :=
   bufferSizeConst_le_fixed feats f fmt o hno
 
-/-- the three witnesses of the current formula succeed under the repaired one -/
+/-- the three witnesses against the formula before the repair succeed under the current one -/
 example :
-    bufferSizeConstFixed {} LexVerif.Spec.f64 ⟨0xa0a0a0000000000000000000000000c⟩ { maxDigits := some 10, negBreak := some (-100) } = 130 ∧
-    writeFloatFixed {} LexVerif.Spec.f64 ⟨0xa0a0a0000000000000000000000000c⟩ { maxDigits := some 10, negBreak := some (-100) } false
+    bufferSizeConst {} LexVerif.Spec.f64 ⟨0xa0a0a0000000000000000000000000c⟩ { maxDigits := some 10, negBreak := some (-100) } = 130 ∧
+    writeFloat {} LexVerif.Spec.f64 ⟨0xa0a0a0000000000000000000000000c⟩ { maxDigits := some 10, negBreak := some (-100) } false
       0x2b2bff2ee48e0530 ([1], -100) (List.replicate 130 170) ≠ .panic ∧
-    writeFloatFixed {} LexVerif.Spec.f64 ⟨0xa0a0a0000000000000000000000000c⟩ { minDigits := some 100 } false 0x01b01297d23ab683
+    writeFloat {} LexVerif.Spec.f64 ⟨0xa0a0a0000000000000000000000000c⟩ { minDigits := some 100 } false 0x01b01297d23ab683
       ([1, 5], -300) (List.replicate 114 170) ≠ .panic ∧
-    bufferSizeConstFixed {} LexVerif.Spec.f64 ⟨0xa0a0a0000000000000000000000000c⟩ { minDigits := some 100 } = 114 ∧
-    writeFloatFixed { compact := true } LexVerif.Spec.f64 ⟨0xa0a0a0000000000000000000000000c⟩
+    bufferSizeConst {} LexVerif.Spec.f64 ⟨0xa0a0a0000000000000000000000000c⟩ { minDigits := some 100 } = 114 ∧
+    writeFloat { compact := true } LexVerif.Spec.f64 ⟨0xa0a0a0000000000000000000000000c⟩
       { maxDigits := some 1, posBreak := some 100 } false 0xd4b249ad2594c37d ([1], 100) (List.replicate 130 170) ≠ .panic := by
   decide +kernel
 
-/-- the full statement (no option exclusion) — false on the current code, see the witnesses below -/
-def float_bound_full : Prop :=
+/-- the full statement (no option exclusion) for the formula before the repair — false, see the witnesses below; the current formula satisfies it: `float_bound` -/
+def float_bound_before_fix_full : Prop :=
   ∀ (feats : Features) (f : Fmt) (fmt : Format) (o : WOpts) (bits : Nat) (ds : List Nat) (sci : Int) (buf : List Nat),
-    DecimalCall feats f fmt o bits ds sci → bufferSizeConst feats f fmt o ≤ buf.length →
-    ∃ w, writeFloat feats f fmt o false bits (ds, sci) buf = .done w ∧ w.hi ≤ bufferSizeConst feats f fmt o
+    DecimalCall feats f fmt o bits ds sci → bufferSizeConstOld feats f fmt o ≤ buf.length →
+    ∃ w, writeFloatOld feats f fmt o false bits (ds, sci) buf = .done w ∧ w.hi ≤ bufferSizeConstOld feats f fmt o
 
-/-! ### `short_buffer_safe` -/
+/-! ### `short_buffer_safe_before_fix` -/
 
 theorem onTail_facts (pre rest : List Nat) (g : WBuf → Res Out) (hnf : g ⟨rest, 0⟩ ≠ .fault)
     (hok : ∀ r, g ⟨rest, 0⟩ = .ok r → r.buf.bytes.length = rest.length ∧ r.buf.hi ≤ rest.length) :
@@ -195,7 +195,7 @@ theorem decimalB_facts (fmt : Format) (feats : Features) (f : Fmt) (ds : List Na
   dsimp only at hhi
   exact ⟨hl, by omega⟩
 
-/-- **C09 `short_buffer_safe`**: whatever the buffer length, format, options and value, the model of `write_float`
+/-- **C09 `short_buffer_safe_before_fix`**: whatever the buffer length, format, options and value, the model of `write_float`
 (decimal back-ends and special values) never reaches `fault`; a result, if any, lies inside the buffer and nothing at or
 beyond `buf.length` was written (`hi ≤ buf.length`).  Non-decimal back-ends are reported as `.other` (not modelled here). -/
 theorem short_buffer_safe_of (bound : Nat) (feats : Features) (f : Fmt) (fmt : Format) (o : WOpts) (bits : Nat)
@@ -248,19 +248,19 @@ theorem short_buffer_safe_of (bound : Nat) (feats : Features) (f : Fmt) (fmt : F
       · exact onTail_facts _ _ _ (writeSpecial_facts _ _).1 (writeSpecial_facts _ _).2
       · exact onTail_facts _ _ _ (writeSpecial_facts _ _).1 (writeSpecial_facts _ _).2
 
-/-- **C09 `short_buffer_safe`** (current formula in `check_buffer`) -/
-theorem short_buffer_safe (feats : Features) (f : Fmt) (fmt : Format) (o : WOpts) (bits : Nat) (ds : List Nat) (sci : Int)
+/-- **C09 `short_buffer_safe_before_fix`** (formula before the repair in `check_buffer`) -/
+theorem short_buffer_safe_before_fix (feats : Features) (f : Fmt) (fmt : Format) (o : WOpts) (bits : Nat) (ds : List Nat) (sci : Int)
     (buf : List Nat) (hds : 1 ≤ ds.length) (hds32 : ds.length ≤ 32) (hmx : o.maxDigits ≠ some 0) :
-    writeFloat feats f fmt o false bits (ds, sci) buf ≠ .fault ∧
-    ∀ w, writeFloat feats f fmt o false bits (ds, sci) buf = .done w →
+    writeFloatOld feats f fmt o false bits (ds, sci) buf ≠ .fault ∧
+    ∀ w, writeFloatOld feats f fmt o false bits (ds, sci) buf = .done w →
       w.bytes.length = buf.length ∧ w.len ≤ buf.length ∧ w.hi ≤ buf.length :=
   short_buffer_safe_of _ feats f fmt o bits ds sci buf hds hds32 hmx
 
-/-- … and with the repaired formula -/
-theorem short_buffer_safe_fixed (feats : Features) (f : Fmt) (fmt : Format) (o : WOpts) (bits : Nat) (ds : List Nat)
+/-- **C09 `short_buffer_safe`**: the same with the formula of the current tree -/
+theorem short_buffer_safe (feats : Features) (f : Fmt) (fmt : Format) (o : WOpts) (bits : Nat) (ds : List Nat)
     (sci : Int) (buf : List Nat) (hds : 1 ≤ ds.length) (hds32 : ds.length ≤ 32) (hmx : o.maxDigits ≠ some 0) :
-    writeFloatFixed feats f fmt o false bits (ds, sci) buf ≠ .fault ∧
-    ∀ w, writeFloatFixed feats f fmt o false bits (ds, sci) buf = .done w →
+    writeFloat feats f fmt o false bits (ds, sci) buf ≠ .fault ∧
+    ∀ w, writeFloat feats f fmt o false bits (ds, sci) buf = .done w →
       w.bytes.length = buf.length ∧ w.len ≤ buf.length ∧ w.hi ≤ buf.length :=
   short_buffer_safe_of _ feats f fmt o bits ds sci buf hds hds32 hmx
 
@@ -269,8 +269,8 @@ theorem short_buffer_safe_fixed (feats : Features) (f : Fmt) (fmt : Format) (o :
 /-- radix-10 format with explicit exponent base / radix (`NumberFormatBuilder::decimal()`) -/
 def fmt10 : Format := ⟨0xa0a0a0000000000000000000000000c⟩
 
-/-- non-vacuity of `float_bound`: `1.2345` with 3..2 digits in a 64-byte buffer (default build) -/
-example : writeFloat {} LexVerif.Spec.f64 fmt10 { maxDigits := some 3, minDigits := some 2 } false 0x3ff3c083126e978d
+/-- non-vacuity of `float_bound_before_fix`: `1.2345` with 3..2 digits in a 64-byte buffer (default build) -/
+example : writeFloatOld {} LexVerif.Spec.f64 fmt10 { maxDigits := some 3, minDigits := some 2 } false 0x3ff3c083126e978d
     ([1, 2, 3, 4, 5], 0) (List.replicate 64 170) =
       .done ⟨[49, 46, 50, 51, 53] ++ List.replicate 59 170, 4, 5⟩ := by decide +kernel
 
@@ -280,28 +280,28 @@ example : SafeOpts {} LexVerif.Spec.f64 fmt10 { maxDigits := some 3, minDigits :
 /-- **Witness 1 (finding)**: `negative_exponent_break = -100`, `max_significant_digits = 10`, value `1e-100`, Dragonbox
 build: `buffer_size_const` is 112, but after 101 leading zeros the digit writer demands a 20-byte slice. -/
 theorem bound_too_small_digit_writer :
-    bufferSizeConst {} LexVerif.Spec.f64 fmt10 { maxDigits := some 10, negBreak := some (-100) } = 112 ∧
-    writeFloat {} LexVerif.Spec.f64 fmt10 { maxDigits := some 10, negBreak := some (-100) } false 0x2b2bff2ee48e0530
+    bufferSizeConstOld {} LexVerif.Spec.f64 fmt10 { maxDigits := some 10, negBreak := some (-100) } = 112 ∧
+    writeFloatOld {} LexVerif.Spec.f64 fmt10 { maxDigits := some 10, negBreak := some (-100) } false 0x2b2bff2ee48e0530
       ([1], -100) (List.replicate 112 170) = .panic ∧
-    writeFloat {} LexVerif.Spec.f64 fmt10 { maxDigits := some 10, negBreak := some (-100) } false 0x2b2bff2ee48e0530
+    writeFloatOld {} LexVerif.Spec.f64 fmt10 { maxDigits := some 10, negBreak := some (-100) } false 0x2b2bff2ee48e0530
       ([1], -100) (List.replicate 122 170) ≠ .panic := by decide +kernel
 
 /-- **Witness 2 (finding)**: `min_significant_digits = 100`, default breaks, value `1.5e-300`, Dragonbox build:
 `buffer_size_const` is 111; after 101 mantissa bytes, `e`, `-` the exponent writer demands a 10-byte slice. -/
 theorem bound_too_small_exponent_writer :
-    bufferSizeConst {} LexVerif.Spec.f64 fmt10 { minDigits := some 100 } = 111 ∧
-    writeFloat {} LexVerif.Spec.f64 fmt10 { minDigits := some 100 } false 0x01b01297d23ab683
+    bufferSizeConstOld {} LexVerif.Spec.f64 fmt10 { minDigits := some 100 } = 111 ∧
+    writeFloatOld {} LexVerif.Spec.f64 fmt10 { minDigits := some 100 } false 0x01b01297d23ab683
       ([1, 5], -300) (List.replicate 111 170) = .panic ∧
-    writeFloat {} LexVerif.Spec.f64 fmt10 { minDigits := some 100 } false 0x01b01297d23ab683
+    writeFloatOld {} LexVerif.Spec.f64 fmt10 { minDigits := some 100 } false 0x01b01297d23ab683
       ([1, 5], -300) (List.replicate 114 170) ≠ .panic := by decide +kernel
 
 /-- **Witness 3 (finding)**: `positive_exponent_break = 100`, `max_significant_digits = 1`, value `-1e100`:
 `buffer_size_const` is 103 but sign + 101 digits + ".0" are 104 bytes — Dragonbox **and** `compact` builds. -/
 theorem bound_too_small_positive_break :
-    bufferSizeConst {} LexVerif.Spec.f64 fmt10 { maxDigits := some 1, posBreak := some 100 } = 103 ∧
-    writeFloat {} LexVerif.Spec.f64 fmt10 { maxDigits := some 1, posBreak := some 100 } false 0xd4b249ad2594c37d
+    bufferSizeConstOld {} LexVerif.Spec.f64 fmt10 { maxDigits := some 1, posBreak := some 100 } = 103 ∧
+    writeFloatOld {} LexVerif.Spec.f64 fmt10 { maxDigits := some 1, posBreak := some 100 } false 0xd4b249ad2594c37d
       ([1], 100) (List.replicate 103 170) = .panic ∧
-    writeFloat { compact := true } LexVerif.Spec.f64 fmt10 { maxDigits := some 1, posBreak := some 100 } false
+    writeFloatOld { compact := true } LexVerif.Spec.f64 fmt10 { maxDigits := some 1, posBreak := some 100 } false
       0xd4b249ad2594c37d ([1], 100) (List.replicate 103 170) = .panic := by decide +kernel
 
 /-- the witnesses lie in the excluded regions -/
@@ -312,7 +312,7 @@ example : ¬ SafeOpts { compact := true } LexVerif.Spec.f64 fmt10 { maxDigits :=
   unfold SafeOpts; decide +kernel
 
 /-- the unrestricted statement is false (Witness 1) -/
-theorem float_bound_full_false : ¬ float_bound_full := by
+theorem float_bound_before_fix_full_false : ¬ float_bound_before_fix_full := by
   intro h
   have hc : DecimalCall {} LexVerif.Spec.f64 fmt10 { maxDigits := some 10, negBreak := some (-100) } 0x2b2bff2ee48e0530
       [1] (-100) :=
@@ -335,8 +335,8 @@ def sgnOf (t : Gen.Sizes.Ty) : Nat := if t.signed then 1 else 0
 
 /-- the documented size leaves room for the sign of a signed type and for every digit of the largest magnitude -/
 def intFits (feats : Features) (t : Gen.Sizes.Ty) (r : Nat) : Bool :=
-  decide (sgnOf t < intBufferSizeConst feats t.name r) &&
-  decide (magOf t < r ^ (intBufferSizeConst feats t.name r - sgnOf t))
+  decide (sgnOf t < intBufferSizeConstOld feats t.name r) &&
+  decide (magOf t < r ^ (intBufferSizeConstOld feats t.name r - sgnOf t))
 
 def featureSets : List Features :=
   [{}, { compact := true }, { powerOfTwo := true, radix := true }, { powerOfTwo := true },
@@ -349,15 +349,15 @@ theorem int_sizes_fit :
     featureSets.all (fun feats => intTypes.all (fun t => (radicesOf feats).all (fun r => intFits feats t r))) = true := by
   decide +kernel
 
-/-- **C09 `int_bound`**: a value of magnitude at most the type's largest magnitude, written in radix `r` with the `-`
+/-- **C09 `int_bound_before_fix`**: a value of magnitude at most the type's largest magnitude, written in radix `r` with the `-`
 sign of a signed type, fits `FORMATTED_SIZE(_DECIMAL)` (`Gen.Sizes`, dumped from the crate). -/
-theorem int_bound (feats : Features) (t : Gen.Sizes.Ty) (r v : Nat) (hfit : intFits feats t r = true) (hr : 2 ≤ r)
+theorem int_bound_before_fix (feats : Features) (t : Gen.Sizes.Ty) (r v : Nat) (hfit : intFits feats t r = true) (hr : 2 ≤ r)
     (hv : v ≤ magOf t) :
-    (numeral r v).length + sgnOf t ≤ intBufferSizeConst feats t.name r := by
+    (numeral r v).length + sgnOf t ≤ intBufferSizeConstOld feats t.name r := by
   unfold intFits at hfit
   simp only [Bool.and_eq_true, decide_eq_true_eq] at hfit
   obtain ⟨h1, h2⟩ := hfit
-  have hlen := LexVerif.Spec.toDigits_length_le r v (intBufferSizeConst feats t.name r - sgnOf t) hr (by omega) (by omega)
+  have hlen := LexVerif.Spec.toDigits_length_le r v (intBufferSizeConstOld feats t.name r - sgnOf t) hr (by omega) (by omega)
   unfold numeral
   rw [List.length_map]
   omega
@@ -367,49 +367,49 @@ example : intFits { powerOfTwo := true, radix := true } ⟨"i8", 8, true, false,
 
 /-- **the stated exception (known finding)**: for unsigned types the size has no room for the `+` written under
 `format` + `required_mantissa_sign`: `u8` 255 needs 3 digits + 1 sign = 4 > `FORMATTED_SIZE_DECIMAL` = 3. -/
-theorem int_plus_sign_exception :
-    (numeral 10 255).length + 1 > intBufferSizeConst {} "u8" 10 := by decide +kernel
+theorem int_plus_sign_exception_before_fix :
+    (numeral 10 255).length + 1 > intBufferSizeConstOld {} "u8" 10 := by decide +kernel
 
-/-! ### the repaired integer size (`fixes/C09-unsigned-plus-sign.diff`)
+/-! ### the integer size of the current tree (repaired by /repo commit 2d9b865)
 
 `lexical_write_integer::Options::buffer_size_const` + 1 when the format requires a mantissa sign (`format` feature). -/
 
 /-- on the dumped size tables -/
-def intBufferSizeConstFixed (feats : Features) (name : String) (radix : Nat) (reqSign : Bool) : Nat :=
-  intBufferSizeConst feats name radix + (if feats.format = true ∧ reqSign = true then 1 else 0)
+def intBufferSizeConst (feats : Features) (name : String) (radix : Nat) (reqSign : Bool) : Nat :=
+  intBufferSizeConstOld feats name radix + (if feats.format = true ∧ reqSign = true then 1 else 0)
 
-/-- **`int_bound_fixed`**: with the repaired size, sign (`-`, or the required `+`, also for unsigned types) plus numeral
-always fit; the repaired size is never smaller than the current one. -/
-theorem int_bound_fixed (feats : Features) (t : Gen.Sizes.Ty) (r v : Nat) (reqSign : Bool) (hfit : intFits feats t r = true)
+/-- **`int_bound`**: with the size of the current tree, sign (`-`, or the required `+`, also for unsigned types) plus numeral
+always fit; it is never smaller than the size before the repair. -/
+theorem int_bound (feats : Features) (t : Gen.Sizes.Ty) (r v : Nat) (reqSign : Bool) (hfit : intFits feats t r = true)
     (hr : 2 ≤ r) (hv : v ≤ magOf t) (hsign : feats.format = true ∧ reqSign = true) :
-    (numeral r v).length + 1 ≤ intBufferSizeConstFixed feats t.name r reqSign ∧
-    intBufferSizeConst feats t.name r ≤ intBufferSizeConstFixed feats t.name r reqSign := by
-  have h := int_bound feats t r v hfit hr hv
-  unfold intBufferSizeConstFixed
+    (numeral r v).length + 1 ≤ intBufferSizeConst feats t.name r reqSign ∧
+    intBufferSizeConstOld feats t.name r ≤ intBufferSizeConst feats t.name r reqSign := by
+  have h := int_bound_before_fix feats t r v hfit hr hv
+  unfold intBufferSizeConst
   rw [if_pos hsign]
   omega
 
-/-- on C03's writer model: the repaired size is at least the size under which C03 proves the integer writers correct
+/-- on C03's writer model: the current size is at least the size under which C03 proves the integer writers correct
 (`requiredSize` = documented size + 1 for unsigned types with a required `+`) … -/
-def writeIntSizeFixed (feats : Features) (t : IntTy) (radix : Nat) (reqSign : Bool) : Nat :=
+def writeIntSize (feats : Features) (t : IntTy) (radix : Nat) (reqSign : Bool) : Nat :=
   LexVerif.Model.WriteInt.bufferSizeConst feats t radix + (if feats.format = true ∧ reqSign = true then 1 else 0)
 
-theorem requiredSize_le_fixed (feats : Features) (t : IntTy) (radix : Nat) (reqSign : Bool) :
-    LexVerif.Model.WriteInt.requiredSize feats t radix reqSign ≤ writeIntSizeFixed feats t radix reqSign ∧
-    LexVerif.Model.WriteInt.bufferSizeConst feats t radix ≤ writeIntSizeFixed feats t radix reqSign := by
-  unfold LexVerif.Model.WriteInt.requiredSize writeIntSizeFixed
+theorem requiredSize_le_size (feats : Features) (t : IntTy) (radix : Nat) (reqSign : Bool) :
+    LexVerif.Model.WriteInt.requiredSize feats t radix reqSign ≤ writeIntSize feats t radix reqSign ∧
+    LexVerif.Model.WriteInt.bufferSizeConst feats t radix ≤ writeIntSize feats t radix reqSign := by
+  unfold LexVerif.Model.WriteInt.requiredSize writeIntSize
   repeat' split
   all_goals simp_all
 
 /-- … hence, with the repair, a buffer of the documented size suffices for every `compact` integer write, unsigned `+`
 included (C03's `writeInt_correct_compact` transferred). -/
-theorem writeInt_fixed_size_suffices_compact (feats : Features) (t : IntTy) (radix : Nat) (reqSign checkValid : Bool)
+theorem writeInt_size_suffices_compact (feats : Features) (t : IntTy) (radix : Nat) (reqSign checkValid : Bool)
     (v : Int) (buffer : LexVerif.Model.WriteInt.Buf) (hc : feats.compact = true)
     (hwf : LexVerif.Model.WriteInt.FeaturesWF feats) (hbits : LexVerif.Model.WriteInt.ValidBits t.bits)
     (hvalid : LexVerif.Model.WriteInt.validRadix feats radix = true) (hv : t.inRange v)
-    (hbuf : writeIntSizeFixed feats t radix reqSign ≤ buffer.length) :
+    (hbuf : writeIntSize feats t radix reqSign ≤ buffer.length) :
     ∃ out, LexVerif.Model.WriteInt.writeInt feats t radix reqSign checkValid v buffer = .ok out :=
   ⟨_, LexVerif.Props.C03.writeInt_correct_compact feats t radix reqSign checkValid v buffer hc hwf hbits hvalid hv
-    (Nat.le_trans (requiredSize_le_fixed feats t radix reqSign).1 hbuf)⟩
+    (Nat.le_trans (requiredSize_le_size feats t radix reqSign).1 hbuf)⟩
 
 end LexVerif.Props.C09
